@@ -8,7 +8,9 @@ C10 — the codecs, branch by branch as in the sources (names of the Rust items 
   runtime/swimos_messages/src/protocol/mod.rs        RawRequestMessage*, RawResponseMessage*
   api/swimos_agent_protocol/src/command/mod.rs       CommandEncoder / CommandDecoder over WithLengthBytesCodec
 Tags and sizes are `Generated.Wire.*` (re-read from the sources on every run).
-A `usize` addition that overflows is `panic`; a `reserve` of an absurd size is `abort` / `panic` (see `reserveOut`).
+Lengths read from the wire are added with `checked_add` (an overflow is an `Err`, fix cd6bc7e) and capacity is
+reserved ahead of the data only up to `MAX_RESERVE` (fix 442681d), so no modelled branch panics or aborts; the
+outcomes `panic` / `abort` stay in `Out` because the harness still observes them (and the monitor rejects them).
 -/
 import SwimVerif.Model.Frames
 import SwimVerif.Generated.WireConsts
@@ -26,7 +28,7 @@ def encWlb (b : Bytes) : Bytes := be 8 b.length ++ b
 /-- `Decoder::decode`. -/
 def wlb : Parser Bytes := fun buf =>
   if buf.length < wlbLenSize then (buf, .more)                                   -- `remaining() < LEN_SIZE`
-  else if M64 ≤ wlbLenSize + rd (buf.take 8) then (buf, .panic)                  -- `LEN_SIZE + len` overflows
+  else if M64 ≤ wlbLenSize + rd (buf.take 8) then (buf, .err)                    -- `len.checked_add(LEN_SIZE)` = None
   else if wlbLenSize + rd (buf.take 8) ≤ buf.length then
     ((buf.drop 8).drop (rd (buf.take 8)), .item ((buf.drop 8).take (rd (buf.take 8))))
   else (buf, .more)
@@ -57,20 +59,19 @@ def encMapMsg : MapMsg → Bytes
 /-- `UPDATE` arm after the frame has been split off (`frame` = `total` bytes, `rest` = what follows). -/
 def rawMapOpUpdateFrame (total : Nat) (frame rest : Bytes) : Bytes × Out MapOp :=
   -- `frame.advance(TAG_SIZE); let key_len = frame.get_u64()`
-  if M64 ≤ rd ((frame.drop 1).take 8) + mapLenSize + mapTagSize then (rest, .panic)     -- map/mod.rs:162
-  else if total < rd ((frame.drop 1).take 8) + mapLenSize + mapTagSize then (rest, .err)
+  if total - mapLenSize - mapTagSize < rd ((frame.drop 1).take 8) then (rest, .err)     -- `key_len > total_len - 9`
   else (rest, .item (.update ((frame.drop 9).take (rd ((frame.drop 1).take 8)))
                              ((frame.drop 9).drop (rd ((frame.drop 1).take 8)))))
 
 def rawMapOpUpdate (buf : Bytes) (total : Nat) : Bytes × Out MapOp :=
   if total < mapLenSize + mapTagSize then (buf, .err)
-  else if M64 ≤ mapLenSize + total then (buf, .panic)                                   -- map/mod.rs:153
+  else if M64 ≤ mapLenSize + total then (buf, .err)                                     -- `checked_add` = None
   else if buf.length < mapLenSize + total then (buf, .more)
   else rawMapOpUpdateFrame total ((buf.drop 8).take total) ((buf.drop 8).drop total)
 
 def rawMapOpRemove (buf : Bytes) (total : Nat) : Bytes × Out MapOp :=
   if total < mapTagSize then (buf, .err)
-  else if M64 ≤ mapLenSize + total then (buf, .panic)                                   -- map/mod.rs:178
+  else if M64 ≤ mapLenSize + total then (buf, .err)                                     -- `checked_add` = None
   else if buf.length < mapLenSize + total then (buf, .more)
   else ((buf.drop 8).drop total, .item (.remove (((buf.drop 8).take total).drop 1)))
 
@@ -286,35 +287,14 @@ def storeResponse (p : Parser β) : Dec β where
   step := storeRespStep p
   view := fun s => match s with | .header => [] | .body => [laneEvent]
 
-/-! ### `reserve` on a length taken from the wire -/
-
-/-- Size from which the harness' allocator refuses a single allocation (293 000 000 bytes; a deterministic stand-in for
-"more than the machine has"): such a reservation cannot be satisfied and the process aborts. -/
-notation "ALLOC_LIMIT" => (293000000 : Nat)
-notation "ISIZE_MAX1" => (9223372036854775808 : Nat)
-
-inductive ReserveOut | ok | panic | abort
-  deriving DecidableEq
-
-/-- `BytesMut::reserve(n)` for an `n` beyond the current capacity: `capacity overflow` panic above
-`isize::MAX`, `handle_alloc_error` (abort) when the allocation cannot be satisfied. -/
-def reserveOut (n : Nat) : ReserveOut :=
-  if ISIZE_MAX1 ≤ n then .panic else if ALLOC_LIMIT ≤ n then .abort else .ok
-
-def afterReserve {α : Type} (n : Nat) (buf : Bytes) : Bytes × Out α :=
-  match reserveOut n with
-  | .ok => (buf, .more)
-  | .panic => (buf, .panic)
-  | .abort => (buf, .abort)
-
 /-! ### `DownlinkOperationDecoder` (`downlink/mod.rs`) -/
 
 def downlinkOp : Parser Bytes := fun buf =>
   if lenSize ≤ buf.length then
-    (if M64 ≤ rd (buf.take 8) + lenSize then (buf, .panic)                        -- `len + LEN_SIZE` overflows
+    (if M64 ≤ rd (buf.take 8) + lenSize then (buf, .err)                          -- `len.checked_add(LEN_SIZE)` = None
      else if rd (buf.take 8) + lenSize ≤ buf.length then
        ((buf.drop 8).drop (rd (buf.take 8)), .item ((buf.drop 8).take (rd (buf.take 8))))
-     else afterReserve (lenSize + rd (buf.take 8)) buf)                             -- `src.reserve(LEN_SIZE + len)`
+     else (buf, .more))                                           -- `src.reserve(required.min(MAX_RESERVE))`
   else (buf, .more)
 
 /-! ### UTF-8 validity (`std::str::from_utf8`) -/
@@ -398,37 +378,42 @@ def msgAfterHeader {α : Type} (buf : Bytes) (nodeLen laneLen : Nat)
      else ((((buf.drop 32).drop nodeLen).drop laneLen), .err))
   else (((buf.drop 32).drop nodeLen), .err)
 
-/-- `RawRequestMessageDecoder::decode`: any tag other than LINK/SYNC/UNLINK is a command (F17), and the
-body-less kinds leave `body_len` bytes behind. -/
+/-- `RawRequestMessageDecoder::decode` (after 5a0b541): the whole frame is consumed whatever the kind; one arm
+per kind, the body-less kinds require an empty body, anything else is `InvalidData`. -/
 def rawRequest : Parser ReqMsg := fun buf =>
   if buf.length < headerInitLen then (buf, .more)
   else if buf.length < headerInitLen + rd ((buf.drop 16).take 4) + rd ((buf.drop 20).take 4)
-      + rd ((buf.drop 24).take 8) % OPSH then
-    afterReserve (headerInitLen + rd ((buf.drop 16).take 4) + rd ((buf.drop 20).take 4)
-      + rd ((buf.drop 24).take 8) % OPSH) buf                                     -- `src.reserve(required)`
+      + rd ((buf.drop 24).take 8) % OPSH then (buf, .more)               -- `src.reserve(required.min(MAX_RESERVE))`
   else msgAfterHeader buf (rd ((buf.drop 16).take 4)) (rd ((buf.drop 20).take 4)) fun origin node lane rest =>
-    if rd ((buf.drop 24).take 8) / OPSH = msgLink then (rest, .item ⟨origin, node, lane, .link⟩)
-    else if rd ((buf.drop 24).take 8) / OPSH = msgSync then (rest, .item ⟨origin, node, lane, .sync⟩)
-    else if rd ((buf.drop 24).take 8) / OPSH = msgUnlink then (rest, .item ⟨origin, node, lane, .unlink⟩)
-    else (rest.drop (rd ((buf.drop 24).take 8) % OPSH),
-          .item ⟨origin, node, lane, .command (rest.take (rd ((buf.drop 24).take 8) % OPSH))⟩)
+    if rd ((buf.drop 24).take 8) / OPSH = msgLink ∧ rd ((buf.drop 24).take 8) % OPSH = 0 then
+      (rest, .item ⟨origin, node, lane, .link⟩)
+    else if rd ((buf.drop 24).take 8) / OPSH = msgSync ∧ rd ((buf.drop 24).take 8) % OPSH = 0 then
+      (rest, .item ⟨origin, node, lane, .sync⟩)
+    else if rd ((buf.drop 24).take 8) / OPSH = msgUnlink ∧ rd ((buf.drop 24).take 8) % OPSH = 0 then
+      (rest, .item ⟨origin, node, lane, .unlink⟩)
+    else if rd ((buf.drop 24).take 8) / OPSH = msgCommand then
+      (rest.drop (rd ((buf.drop 24).take 8) % OPSH),
+        .item ⟨origin, node, lane, .command (rest.take (rd ((buf.drop 24).take 8) % OPSH))⟩)
+    else (rest.drop (rd ((buf.drop 24).take 8) % OPSH), .err)
 
-/-- `RawResponseMessageDecoder::decode`. -/
+/-- `RawResponseMessageDecoder::decode` (after 5a0b541). -/
 def rawResponse : Parser RespMsg := fun buf =>
   if buf.length < headerInitLen then (buf, .more)
   else if buf.length < headerInitLen + rd ((buf.drop 16).take 4) + rd ((buf.drop 20).take 4)
-      + rd ((buf.drop 24).take 8) % OPSH then
-    afterReserve (headerInitLen + rd ((buf.drop 16).take 4) + rd ((buf.drop 20).take 4)
-      + rd ((buf.drop 24).take 8) % OPSH - buf.length) buf                        -- `reserve(required - remaining)`
+      + rd ((buf.drop 24).take 8) % OPSH then (buf, .more)  -- `reserve((required - remaining).min(MAX_RESERVE))`
   else msgAfterHeader buf (rd ((buf.drop 16).take 4)) (rd ((buf.drop 20).take 4)) fun origin node lane rest =>
-    if rd ((buf.drop 24).take 8) / OPSH = msgLinked then (rest, .item ⟨origin, node, lane, .linked⟩)
-    else if rd ((buf.drop 24).take 8) / OPSH = msgSynced then (rest, .item ⟨origin, node, lane, .synced⟩)
+    if rd ((buf.drop 24).take 8) / OPSH = msgLinked ∧ rd ((buf.drop 24).take 8) % OPSH = 0 then
+      (rest, .item ⟨origin, node, lane, .linked⟩)
+    else if rd ((buf.drop 24).take 8) / OPSH = msgSynced ∧ rd ((buf.drop 24).take 8) % OPSH = 0 then
+      (rest, .item ⟨origin, node, lane, .synced⟩)
     else if rd ((buf.drop 24).take 8) / OPSH = msgUnlinked then
       (if rd ((buf.drop 24).take 8) % OPSH = 0 then (rest, .item ⟨origin, node, lane, .unlinked none⟩)
        else (rest.drop (rd ((buf.drop 24).take 8) % OPSH),
              .item ⟨origin, node, lane, .unlinked (some (rest.take (rd ((buf.drop 24).take 8) % OPSH)))⟩))
-    else (rest.drop (rd ((buf.drop 24).take 8) % OPSH),
-          .item ⟨origin, node, lane, .event (rest.take (rd ((buf.drop 24).take 8) % OPSH))⟩)
+    else if rd ((buf.drop 24).take 8) / OPSH = msgEvent then
+      (rest.drop (rd ((buf.drop 24).take 8) % OPSH),
+        .item ⟨origin, node, lane, .event (rest.take (rd ((buf.drop 24).take 8) % OPSH))⟩)
+    else (rest.drop (rd ((buf.drop 24).take 8) % OPSH), .err)
 
 /-! ### ad hoc command messages (`command/mod.rs`, `CommandDecoder<S, WithLengthBytesCodec>`) -/
 
@@ -500,25 +485,23 @@ def cmdAddressedHeader (flags : Nat) (buf : Bytes) : CmdSt × Bytes × Out CmdMs
     let b := if hasFlag flags cmdHasHost then buf.drop 8 else buf
     let nl := rd (b.take 8)
     let ll := rd ((b.drop 8).take 8)
-    if M64 ≤ hl + nl ∨ M64 ≤ hl + nl + ll then (.init, buf, .panic)            -- `host_len + node_len + lane_len`
+    if M64 ≤ hl + nl ∨ M64 ≤ hl + nl + ll then (.init, buf, .err)              -- `total_len(&[..])?` overflows
     else if (b.drop 16).length < hl + nl + ll then (.readingAddressedHeader flags, buf, .more)
     else cmdStrings (hasFlag flags cmdHasHost) hl nl ll (b.drop 16) fun a rest =>
       cmdBody (.readingAddressedBody a (hasFlag flags cmdOverwrite))
         (fun body => .addressed a body (hasFlag flags cmdOverwrite)) rest
 
-/-- `ReadingRegistration(flags)` arm: when the header is not complete yet the state that is stored is
-`ReadingAddressedHeader(flags)` (as in the source), so a split registration is later read as an addressed
-message. -/
+/-- `ReadingRegistration(flags)` arm (after 5ec6b4e an incomplete header keeps the state). -/
 def cmdRegistrationArm (flags : Nat) (buf : Bytes) : CmdSt × Bytes × Out CmdMsg :=
   if buf.length < (if hasFlag flags cmdHasHost then cmdMaxRequired else cmdMinRequired) then
-    (.readingAddressedHeader flags, buf, .more)
+    (.readingRegistration flags, buf, .more)
   else
     let hl := if hasFlag flags cmdHasHost then rd (buf.take 8) else 0
     let b := if hasFlag flags cmdHasHost then buf.drop 8 else buf
     let nl := rd (b.take 8)
     let ll := rd ((b.drop 8).take 8)
-    if M64 ≤ hl + nl ∨ M64 ≤ hl + nl + ll ∨ M64 ≤ hl + nl + ll + cmdIdLen then (.init, buf, .panic)
-    else if (b.drop 16).length < hl + nl + ll + cmdIdLen then (.readingAddressedHeader flags, buf, .more)
+    if M64 ≤ hl + nl ∨ M64 ≤ hl + nl + ll ∨ M64 ≤ hl + nl + ll + cmdIdLen then (.init, buf, .err)
+    else if (b.drop 16).length < hl + nl + ll + cmdIdLen then (.readingRegistration flags, buf, .more)
     else cmdStrings (hasFlag flags cmdHasHost) hl nl ll (b.drop 16) fun a rest =>
       (.init, rest.drop 2, .item (.register a (rd (rest.take 2))))
 
